@@ -20,7 +20,10 @@ Init ==
 
 Fail(clause, r) == PrintT(<<"FAIL", l, ToJson([clauses |-> <<clause>>, caseNo |-> caseNo, n |-> N, ev |-> r])>>)
 
-ItemOf(r) == {i \in 1..N : coords[i] = <<r.z, r.x, r.y>>}
+\* the item a delivered coordinate belongs to (the drivers number coordinates by their x, which is tried first; the
+\* search over all items is the general rule)
+ItemOf(r) == IF r.x \in 1..N /\ coords[r.x] = <<r.z, r.x, r.y>> THEN {r.x}
+             ELSE {i \in 1..N : coords[i] = <<r.z, r.x, r.y>>}
 
 TNext ==
     /\ l <= Len(Rec)
@@ -66,6 +69,9 @@ TNext ==
               /\ UNCHANGED <<vars, spawned, yielded, fh, coords, caseNo>>
 Spec == Init /\ [][TNext]_<<vars, tvars>>
 
+\* validation is deterministic: the position in the log identifies the state (TLC then fingerprints one integer instead
+\* of sets and sequences that grow with the stream)
+ViewL == l
 AllConsumed ==
     \/ TLCGet("stats").diameter - 1 = Len(Rec)
     \/ PrintT(<<"NOT_CONSUMED", TLCGet("stats").diameter - 1, Len(Rec)>>) /\ FALSE
